@@ -76,4 +76,14 @@ package allocators
 
 //@ func (Allocator).Free
 //@   requires self != nil
-//@   modifies nothing
+//@   requires v4pool(self) || (len(arg0.IP) == 16 && len(arg0.Mask) == 16)
+//@   modifies outst(self)
+// both pools: Free never makes a block outstanding, and a failed Free changes nothing
+//@   ensures[C06:free-adds-nothing] forall key bv128: outst(self)[key] ==> old(outst(self))[key]
+//@   ensures[C06:failed-free-changes-nothing] ret0 != nil ==> (forall key bv128: old(outst(self))[key] ==> outst(self)[key])
+// C06 at the interface (IPv4 pools; a prefix pool's Free is left unconstrained here: the view may
+// change arbitrarily, which is sound for any caller): Free succeeds exactly when the address is an
+// outstanding block of the pool, and the view loses that block and no other
+//@   ensures[C06:succeeds-iff-outstanding-v4] v4pool(self) ==> ((ret0 == nil) <==> (isv4(arg0.IP) && poollo(self) <= zext(128, v4of(arg0.IP)) && \
+//@       zext(128, v4of(arg0.IP)) <= poolhi(self) && old(outst(self))[zext(128, v4of(arg0.IP))]))
+//@   ensures[C06:view-shrinks-by-that-block-only-v4] v4pool(self) ==> (forall key bv128: outst(self)[key] <==> (old(outst(self))[key] && !(ret0 == nil && key == zext(128, v4of(arg0.IP)))))
